@@ -132,10 +132,45 @@ fn teval_terminal() -> Option<String> {
     None
 }
 
+/// C13: a scalar tolerance and the constant vector give the same trajectory (Radau transforms tolerances internally)
+fn radau_scalar_vector_tol() -> Option<String> {
+    for n in [1usize, 4, 7] {
+        let y0 = vec![1.0; n];
+        let f = Lin::new();
+        let a = solve_ivp(&f, 0.0, 1.0, &y0, Options::builder().method(Method::RADAU).rtol(1e-6).atol(1e-9).build()).unwrap();
+        let b = solve_ivp(&f, 0.0, 1.0, &y0, Options::builder().method(Method::RADAU).rtol(vec![1e-6; n]).atol(vec![1e-9; n]).build()).unwrap();
+        if a.t != b.t || a.y != b.y {
+            return Some(format!("Radau n={}: scalar tolerances give {} accepted steps, the same tolerances as constant vectors {} (trajectories differ)", n, a.naccpt, b.naccpt));
+        }
+    }
+    None
+}
+/// C04: an error-controlled method never reports Success with non-finite states (right-hand side turns NaN part-way)
+fn nan_rhs_not_success() -> Option<String> {
+    struct NanAfter;
+    impl IVP for NanAfter { fn ode(&self, t: f64, y: &[f64], d: &mut [f64]) { d[0] = if t > 0.5 { f64::NAN } else { -y[0] }; } }
+    for m in ADAPTIVE {
+        let (tx, rx) = std::sync::mpsc::channel();
+        let mm = m.clone();
+        std::thread::spawn(move || {
+            let s = solve_ivp(&NanAfter, 0.0, 1.0, &[1.0], Options::builder().method(mm).max_steps(20000).build());
+            let _ = tx.send(s.map(|s| (s.status, s.y.last().cloned().unwrap_or_default())));
+        });
+        match rx.recv_timeout(std::time::Duration::from_secs(20)) {
+            Err(_) => return Some(format!("{:?}: NaN right-hand side after t=0.5: the run did not return within 20 s", m)),
+            Ok(Ok((st, y))) => { if st == Status::Success && y.iter().any(|v| !v.is_finite()) { return Some(format!("{:?}: NaN right-hand side after t=0.5: status Success with y={:?}", m, y)); } }
+            Ok(Err(_)) => {}
+        }
+    }
+    None
+}
+
 fn main() {
     let which = std::env::args().nth(1).unwrap_or_default();
     let r = match which.as_str() {
         "span_hinit_probe" => span_hinit_probe(),
+        "radau_scalar_vector_tol" => radau_scalar_vector_tol(),
+        "termination" => nan_rhs_not_success(),
         "teval_terminal" => teval_terminal(),
         "default_mass" => default_mass(),
         "matrix_dense_model" => matrix_dense_model(),
